@@ -273,7 +273,7 @@ def n_variants(kind, name, clip=False):
     if kind == 'mulp':
         return len(PLANE_VARIANTS)
     if kind == 'prop':
-        return DFT_NFORMS if name == 'dft' else FFT_NFORMS
+        return DFT_NFORMS * 3 if name == 'dft' else FFT_NFORMS * 3
     # the tilt classes take the Plane keywords too: first the bare forms, then with a sampled aperture
     if name in ('Tilt',):
         return len(TILT_VARIANTS) + len(PLANE_VARIANTS)
@@ -491,12 +491,28 @@ def do_propagate(lentil, m, w, v, reg=REG0):
         if m == 'dft':
             form, os_, shape = _prop_args(DFT_VARIANTS, v)
             du = 5e-6 * os_ if reg[2] else _du(reg, form, os_)     # loose + untyped: must be refused on its type alone
+            opt = (v // DFT_NFORMS) % 3 if not reg[2] else 0
+            if opt:
+                # the optional arguments: mask= (an output mask of the full output shape, lit in its middle) or
+                # prop_shape= (here equal to shape); they select where samples are computed, never the type
+                so = [int(x) * int(os_) for x in np.broadcast_to(shape, (2,))]
+                if opt == 1:
+                    m = np.zeros(so)
+                    m[1:so[0] - 1, 1:so[1] - 1] = 1
+                    return lentil.propagate_dft(w, pixelscale=du, shape=shape, oversample=os_, mask=m)
+                return lentil.propagate_dft(w, pixelscale=du, shape=shape, prop_shape=shape, oversample=os_)
             if v % 3 == 2:
                 return lentil.propagate_dft(w, du, shape, None, os_)           # positionally
             return lentil.propagate_dft(w, pixelscale=du, shape=shape, oversample=os_)
         if m == 'fft':
             form, os_, shape = _prop_args(FFT_VARIANTS, v)
             du = 5e-6 * os_ if reg[2] else _du(reg, form, os_)
+            opt = (v // FFT_NFORMS) % 3 if not reg[2] else 0
+            if opt and w.pixelscale is not None and np.isfinite(w.focal_length):
+                # scratch=: a pre-allocated complex work array of exactly / more than the required shape
+                ss = lentil.scratch_shape(w.wavelength, w.pixelscale, np.broadcast_to(du, (2,)), w.focal_length, os_)
+                scr = np.ones(tuple(int(x) + (opt - 1) * 3 for x in ss), dtype=complex)
+                return lentil.propagate_fft(w, pixelscale=du, shape=shape, oversample=os_, scratch=scr)
             if v % 3 == 2:
                 return lentil.propagate_fft(w, du, shape, os_)                 # positionally
             return lentil.propagate_fft(w, pixelscale=du, shape=shape, oversample=os_)
